@@ -1738,6 +1738,34 @@ initial chain + operation list";
                 steps.entry(q.clone()).or_insert_with(|| a.clone());
             }
         }
+        // the same sequence with every borrowed segment owned and vice versa: same bytes everywhere
+        {
+            let flip = |s: &SegSpec| SegSpec { stat: !s.stat, bytes: s.bytes.clone() };
+            let finit: Vec<SegSpec> = init.iter().map(flip).collect();
+            let fops: Vec<Op> = ops
+                .iter()
+                .map(|o| match o {
+                    Op::Push(s) => Op::Push(flip(s)),
+                    Op::Insert(i, s) => Op::Insert(*i, flip(s)),
+                    other => other.clone(),
+                })
+                .collect();
+            let run2 = run_case(&finit, &fops);
+            let strip = |l: &str| l.replace("T:", "").replace("S:", "");
+            let differ = run.steps.len() != run2.steps.len()
+                || run.steps.iter().zip(&run2.steps).any(|(a, b)| strip(&a.1) != strip(&b.1))
+                || strip(&run.run_resp) != strip(&run2.run_resp);
+            rep.count("random/replayed with borrowed and owned swapped");
+            if differ && run.fail.is_none() && run2.fail.is_none() {
+                let k = run.steps.iter().zip(&run2.steps).position(|(a, b)| strip(&a.1) != strip(&b.1)).unwrap_or(0);
+                rep.fail(
+                    FailKind::Impl,
+                    &format!("variants-differ: {}", case_text(&init, &ops[..(k + 1).min(ops.len())]).chars().take(300).collect::<String>()),
+                    &format!("the same sequence with borrowed and owned segments swapped behaves differently at op {k}: `{}` vs `{}`", run.steps.get(k).map_or("", |x| x.1.as_str()), run2.steps.get(k).map_or("", |x| x.1.as_str())),
+                    json!({"op": "chain-seq", "init": segs_text(init.iter().map(|s| (s.stat, s.bytes.as_slice()))), "ops": ops.iter().map(Op::text).collect::<Vec<_>>(), "category": "variants-differ"}),
+                );
+            }
+        }
         if let Some((_, cat, d)) = &run.fail {
             let n = random_fail_cats.entry(cat).or_insert(0);
             *n += 1;
